@@ -14,3 +14,5 @@ def check(rep, tier):
     rep.run(rules_numeric.run_lowprec, rep, tier)
     from contracts import guards
     rep.run(guards.run, rep, tier)            # an unsupported configuration that stops raising returns a wrong gradient
+    from contracts import rules_numeric as _rn
+    rep.run(_rn.run_near_tie, rep)
